@@ -1,0 +1,72 @@
+//! Verification hooks, compiled only with `--cfg arroy_verif`.
+//!
+//! Drop-in replacements for the std atomics used by the node id generator. Every operation first
+//! calls [`yield_point`], which invokes a thread-local callback (a no-op unless a scheduler
+//! installed one), then performs the real atomic operation.
+#![cfg(arroy_verif)]
+
+use std::cell::RefCell;
+use std::fmt;
+use std::sync::atomic::Ordering;
+use std::sync::Arc;
+
+thread_local! {
+    static YIELD_HOOK: RefCell<Option<Arc<dyn Fn() + Send + Sync>>> = const { RefCell::new(None) };
+}
+
+/// Installs (or removes) the callback invoked before every atomic operation of this thread.
+pub fn set_yield_hook(hook: Option<Arc<dyn Fn() + Send + Sync>>) {
+    YIELD_HOOK.with(|h| *h.borrow_mut() = hook);
+}
+
+#[inline]
+fn yield_point() {
+    let hook = YIELD_HOOK.with(|h| h.borrow().clone());
+    if let Some(hook) = hook {
+        hook();
+    }
+}
+
+macro_rules! shim {
+    ($name:ident, $std:ty, $prim:ty) => {
+        pub struct $name($std);
+
+        impl $name {
+            pub fn new(v: $prim) -> Self {
+                Self(<$std>::new(v))
+            }
+            pub fn load(&self, order: Ordering) -> $prim {
+                yield_point();
+                self.0.load(order)
+            }
+            pub fn store(&self, v: $prim, order: Ordering) {
+                yield_point();
+                self.0.store(v, order)
+            }
+        }
+
+        impl fmt::Debug for $name {
+            fn fmt(&self, f: &mut fmt::Formatter<'_>) -> fmt::Result {
+                self.0.fmt(f)
+            }
+        }
+    };
+}
+
+shim!(AtomicU32, std::sync::atomic::AtomicU32, u32);
+shim!(AtomicU64, std::sync::atomic::AtomicU64, u64);
+shim!(AtomicBool, std::sync::atomic::AtomicBool, bool);
+
+impl AtomicU32 {
+    pub fn fetch_add(&self, v: u32, order: Ordering) -> u32 {
+        yield_point();
+        self.0.fetch_add(v, order)
+    }
+}
+
+impl AtomicU64 {
+    pub fn fetch_add(&self, v: u64, order: Ordering) -> u64 {
+        yield_point();
+        self.0.fetch_add(v, order)
+    }
+}
